@@ -51,8 +51,15 @@ def main():
             env = dict(os.environ, WACV_REPO=wt)
             r = subprocess.run([os.path.join(V, "check"), p, "--tier", tier], cwd=V, env=env, capture_output=True, text=True)
             lines = [l for l in r.stdout.splitlines() if l.startswith(("VIOLATION", "OK", "KNOWN-FINDING", "INFRASTRUCTURE"))]
-            print("%s %s: rc=%d %s" % (os.path.basename(sd), p, r.returncode, " | ".join(lines)[:600]))
+            # verdict lines first, every line cut separately (a KNOWN-FINDING line can be > 1 kB and
+            # used to push the VIOLATION line out of the 600 characters that were printed)
+            lines.sort(key=lambda l: 0 if l.startswith(("VIOLATION", "OK")) else 1 if l.startswith("INFRASTRUCTURE") else 2)
+            print("%s %s: rc=%d %s" % (os.path.basename(sd), p, r.returncode, " | ".join(l[:220] for l in lines)))
             caught = any(l.startswith("VIOLATION") for l in lines)
+            if r.returncode != 0 and not caught:
+                # the runner itself failed (exception / timeout): show why instead of a bare rc
+                print("  no verdict line; runner stderr tail: " + r.stderr[-1500:].replace("\n", " | "))
+                print("  runner stdout tail: " + r.stdout[-600:].replace("\n", " | "))
             if not caught:
                 ok = False
             meta.setdefault("check_runs", []).append({
